@@ -257,10 +257,37 @@ def gen_roundtrip(tier):
     return cases
 
 
+# literals that happen to equal one of the internal operation codes ('P', '.', '[', '(', 'x', 'X', '+', ...), in every argument position
+OPCODE_NAMES = ['P', 'x', 'X', 'S', 'T']
+OPCODE_STRS = ["'P'", "'.'", "'['", "'('", "'x'", "'X'", "'+'", "'~'", "'_'"]
+
+
+def gen_opcode_literals():
+    steps = [['.', n] for n in OPCODE_NAMES] + [['[', a] for a in OPCODE_STRS] + [['(', a, ''] for a in OPCODE_STRS[:4]] + [['(', '', 'P=1'], ['x']]
+    cases = []
+    for root in ('T', 'S'):
+        for n in (1, 2):
+            for seq in itertools.product(steps, repeat=n):
+                if root == 'S' and seq[0][0] == '(':
+                    continue
+                cases.append({'root': root, 'wrap': 't', 'steps': [list(x) for x in seq]})
+    psteps = [['P', a] for a in OPCODE_STRS] + [['.', 'P'], ['[', "'P'"], ['x']]
+    for n in (1, 2, 3):
+        for seq in itertools.product(psteps, repeat=n):
+            if n == 3 and not any(x[0] != 'P' for x in seq):
+                continue
+            cases.append({'root': 'T', 'wrap': 'path', 'steps': [list(x) for x in seq]})
+    return cases
+
+
 # ---------------------------------------------------------------------------
 # sequence laws
 
 SEQ_STEPS = [['P', "'a'"], ['P', '0'], ['.', 'b'], ['[', "'k'"], ['x'], ['.', 'a'], ['[', "'a'"]]    # 'a' as a Path segment, an attribute and an item
+
+
+import pickle as _pickle
+import copy as _copy
 
 
 def steps_tuple(p):
@@ -309,6 +336,15 @@ def run_seqlaws(case):
                 checked += 1
                 if got != want:
                     return R({'expected': 'p[%r:%r:%r] -> %r' % (a, b, c, want), 'observed': repr(got), **where}, 'slice', sig='Path.__getitem__:slice')
+                if c in (None, 2) and (a is None or b is None or len(want) == 0):
+                    # a slice is a Path like any other: it prints, pickles and copies
+                    try:
+                        back = [steps_tuple(eval(repr(q), dict(NS))), steps_tuple(_pickle.loads(_pickle.dumps(q))), steps_tuple(_copy.deepcopy(q))]
+                    except Exception as e:
+                        back = 'raised %r' % (e,)
+                    if back != [want, want, want]:
+                        return R({'expected': 'p[%r:%r:%r] = %r round-trips through repr / pickle / deepcopy' % (a, b, c, q), 'observed': repr(back), **where},
+                                 'slice-roundtrip')
     # prefixes / startswith / equality / concatenation
     for k in range(0, n + 1):
         pre = build_expr({'root': 'T', 'wrap': 'path', 'steps': steps[:k]})
@@ -449,6 +485,10 @@ def subs(tier, only=None):
                        rule='case = (root T/S/A, bare or Path, step sequence); non-trivial = at least one step',
                        min_nontrivial=1000, min_outcomes=1,
                        required_tags=['.', '[', '(', 'x', 'X', 'P', 'T', 'S', 'A', 't', 'path']))
+    if only in (None, 'opcode-literals'):
+        out.append(Sub('opcode-literals', gen_opcode_literals(), run_roundtrip,
+                       rule='case = expressions of 1-2 steps (Paths: 1-3) whose attribute names / keys / arguments / Path segments equal the internal operation codes '
+                            "('P', '.', '[', '(', 'x', 'X', '+'): same round-trip oracle as roundtrip", min_nontrivial=300, min_outcomes=1, case_timeout=20))
     if only in (None, 'repr-history'):
         out.append(Sub('repr-history', gen_repr_history(tier), run_repr_history,
                        rule='case = ordered selection from a group of expressions whose arguments are equal but distinct (1 / 1.0 / True ...), printed in that '
